@@ -25,6 +25,11 @@ def handle : List String → Option String
       | .ok spec => pure (if is (typeOf it) spec then "ok:self" else "ok:empty")
       | .err _ => pure "compile-err"
       | .panic => pure "panic"
+  | "tspec" :: parts =>
+      match resolveParts parts with
+      | .ok _ => some "ok"
+      | .err _ => some "compile-err"
+      | .panic => some "panic"
   | _ => none
 
 /-- declared type of an item, from its schema position (not from the code's TypeOf) -/
@@ -50,6 +55,11 @@ def refIs (d s : String × String) : Bool :=
   d.1 == s.1 && (if d.1 == "System" then d.2 == s.2 || s.2 == "Any" else Ref.derives d.2 s.2)
 
 def handleRef : List String → Option String
+  | "tspec" :: parts =>
+    (match parts with
+     | [n] => some (if (refSpec none n).isSome then "ok" else "compile-err")
+     | [ns, n] => some (if (refSpec (some ns) n).isSome then "ok" else "compile-err")
+     | _ => some "compile-err")
   | [op, item, ns, t] =>
     if op != "is" && op != "as" then none else
     -- outside the reference's universe: google/fhir's internal ReferenceId, and xhtml (which the
